@@ -1,0 +1,19 @@
+//go:build verif
+
+// Contracts for the Diameter client of package rating. Compiled only under the build tag "verif".
+
+package rating
+
+import "github.com/free5gc/chf/pkg/factory"
+
+// ghostLiveConns: Diameter connections opened by DialNetworkTLS and not yet closed (updated by the
+// assumed contracts of sm.Client.DialNetworkTLS and diam.Conn.Close)
+var ghostLiveConns int
+
+var _ = factory.ChfConfig // the contracts below mention the configuration
+
+// A completed request leaves no connection behind, on every return path (C18).
+//@ func SendServiceUsageRequest [C18]
+//@   requires ue != nil && sur != nil && ue.RatingClient != nil
+//@   requires [C18 C20] factory.ChfConfig != nil && factory.ChfConfig.Configuration != nil && factory.ChfConfig.Configuration.RfDiameter != nil && factory.ChfConfig.Configuration.RfDiameter.Tls != nil
+//@   ensures ghostLiveConns == old(ghostLiveConns)
